@@ -303,6 +303,24 @@ fn run_buf<T: Elem>(sc: &BufSc) -> BufResult {
                 // a stack may present its items oldest-first or newest-first
                 it == fwd || it.iter().rev().cloned().collect::<Vec<_>>() == fwd
             };
+            // the iterator's adaptors (nth, skip, step_by, last, count) must agree with stepping it
+            if ok_iter && !it.is_empty() {
+                let k = (ev as usize) % it.len();
+                let nth = buf.iter().nth(k).map(|e| e.serial());
+                let skipped: Vec<i64> = buf.iter().skip(k).map(|e| e.serial()).collect();
+                let stepped: Vec<i64> = buf.iter().step_by(2).map(|e| e.serial()).collect();
+                let last = buf.iter().last().map(|e| e.serial());
+                let want_step: Vec<i64> = it.iter().cloned().step_by(2).collect();
+                if nth != Some(it[k]) || skipped != it[k..] || stepped != want_step || last != it.last().cloned() || buf.iter().count() != it.len() {
+                    vs.push(bviol("iter", &format!("{} iter adaptors", kname), format!("nth({})={:?} skip({})={:?} step_by(2)={:?} last={:?} count={}, plain iteration {:?}", k, nth, k, skipped, stepped, last, buf.iter().count(), it), ev));
+                }
+                let mut two = buf.iter();
+                let first = two.next().map(|e| e.serial());
+                let rest_nth = two.nth(0).map(|e| e.serial());
+                if first != Some(it[0]) || rest_nth != it.get(1).cloned() {
+                    vs.push(bviol("iter", &format!("{} iter adaptors", kname), format!("next() then nth(0) gave {:?}, {:?}; plain iteration {:?}", first, rest_nth, it), ev));
+                }
+            }
             if !ok_iter || buf.iter().len() != model.len() {
                 vs.push(bviol("iter", &format!("{} iter", kname), format!("iteration saw {:?}, live items oldest first {:?}", it, fwd), ev));
             }
